@@ -998,7 +998,11 @@ Section Readers.
         else rdf_block rest (S n) true buf m_start
       else if Nat.eqb n buffer_size then (None, rest)
       else if falsy m_start && startswith (L "$DTYPE") line then rdf_block rest (S n) false (buf ++ [line]) (Some (length buf))
-      else if is_fmt line then (Some (buf, m_start), rest)
+      else if is_fmt line then
+        match buf with
+        | [] => rdf_block rest (S n) false buf m_start     (* `if not buffer: continue`: the format line of the requested record itself (after seek) *)
+        | _ => (Some (buf, m_start), rest)
+        end
       else rdf_block rest (S n) false (buf ++ [line]) m_start
     end.
 
